@@ -448,7 +448,11 @@ pub fn cases(ctx: &Ctx) -> Vec<Case> {
             };
             muts.push((lvl, random_mut(&mut rng)));
         }
-        let forge = if i % 9 == 0 { Some(rng.pick(&forges).clone()) } else { None };
+        let mut forge = if i % 9 == 0 { Some(rng.pick(&forges).clone()) } else { None };
+        // (same exclusion as above: hundreds of thousands of runs under compression are only slow)
+        if matches!(forge, Some(Forge::DeepOffsets(n)) if n > 20_000) && p.layers != 0 {
+            forge = None;
+        }
         v.push(Case { base: Base::Prog(p), forge, muts, ops_seed: rng.next() });
     }
     // (2b) two compression blocks: the footers are read from the last block only, so a corruption in the
